@@ -566,6 +566,7 @@ RELATED = {
     "C02": ("C02", "C01", "C04"),
     "C09": ("C09", "C10"),
     "C10": ("C10", "C09"),
+    "C04": ("C04", "C11"),
     "C08": ("C08", "C01", "C07"),
 }
 
@@ -677,6 +678,9 @@ def trace_premise(chk, pid, seed):
 DROP_PANIC = {
     "C04": lambda d: "destructor ran" in d or "double free" in d or "layout mismatch" in d or "Gc count reads" in d or "keep unwinding" in d or "scenario itself died" in d,
     "C05": lambda d: "upgrade() returned" in d or "is_dropped()" in d,
+    # "nothing is destructed twice" after a caught panic (C11 lists trace / callback / constructor panics; a destructor that
+    # panics during a collection is "a panic at any point" of its title): only second destructor runs are charged
+    "C11": lambda d: ("destructor ran" in d and "ran 0 time" not in d and "ran 1 time" not in d) or "double free" in d or "process died" in d,
 }
 
 
